@@ -10,6 +10,7 @@ mod atomics;
 mod expr;
 mod find;
 mod sections;
+mod sigs;
 
 use std::fs;
 use std::path::Path;
@@ -76,7 +77,7 @@ fn run(src: &Path, out: &Path) -> Result<(), String> {
             sites.extend(s);
             fns.extend(f2);
         }
-        for rel in ["raw/mod.rs", "iter/traverser.rs", "iter/mod.rs"] {
+        for rel in ["raw/mod.rs", "iter/traverser.rs", "iter/mod.rs", "serde_impls.rs", "rayon_impls.rs"] {
             let f = parse(src, rel)?;
             let (s, f2) = atomics::scan(&f, rel);
             sites.extend(s);
@@ -89,6 +90,38 @@ fn run(src: &Path, out: &Path) -> Result<(), String> {
                 .iter()
                 .map(|x| format!("  {{\"file\": {}, \"fn\": {}, \"line\": {}, \"field\": {}, \"method\": {}, \"ords\": {}}}",
                     json_str(&x.file), json_str(&x.func), x.line, json_str(&x.field), json_str(&x.method), json_str(&x.ords.join(","))))
+                .collect::<Vec<_>>()
+                .join(",\n"),
+        );
+        json.push_str("\n],\n");
+    }
+
+    // GenSig / GenBounds
+    {
+        let mut sg = Vec::new();
+        let mut bd = Vec::new();
+        let files: Vec<(syn::File, &str, Vec<&str>)> = vec![
+            (parse(src, "map.rs")?, "map.rs", vec!["HashMap"]),
+            (parse(src, "set.rs")?, "set.rs", vec!["HashSet"]),
+            (parse(src, "map_ref.rs")?, "map_ref.rs", vec!["HashMapRef", "HashMap"]),
+            (parse(src, "set_ref.rs")?, "set_ref.rs", vec!["HashSetRef", "HashSet"]),
+            (parse(src, "iter/mod.rs")?, "iter/mod.rs", vec!["Iter", "Keys", "Values"]),
+            (parse(src, "serde_impls.rs")?, "serde_impls.rs", vec!["HashMap", "HashSet", "HashMapVisitor", "HashSetVisitor"]),
+            (parse(src, "rayon_impls.rs")?, "rayon_impls.rs", vec!["HashMap", "HashSet", "HashMapRef", "HashSetRef"]),
+        ];
+        for (f, name, tys) in &files {
+            let (a, b) = sigs::scan(f, name, tys);
+            sg.extend(a);
+            bd.extend(b);
+        }
+        bd.extend(sigs::unsafe_impls(&node, "node.rs"));
+        write_if_changed(&out.join("GenSig.v"), &sigs::sig_coq(&sg));
+        write_if_changed(&out.join("GenBounds.v"), &sigs::bounds_coq(&bd));
+        json.push_str("\"sigs\": [\n");
+        json.push_str(
+            &sg.iter()
+                .filter(|r| r.returns_borrow)
+                .map(|r| format!("  {{\"ty\": {}, \"trait\": {}, \"name\": {}, \"file\": {}}}", json_str(&r.ty), json_str(&r.trait_), json_str(&r.name), json_str(&r.file)))
                 .collect::<Vec<_>>()
                 .join(",\n"),
         );
